@@ -153,7 +153,7 @@ impl<'de> Deserialize<'de> for Bytes {
             where
                 A: serde::de::SeqAccess<'de>,
             {
-                let mut buf = Vec::with_capacity(seq.size_hint().unwrap_or_default());
+                let mut buf = Vec::with_capacity(seq.size_hint().unwrap_or_default().min(4096));
                 while let Some(byte) = seq.next_element()? {
                     buf.push(byte);
                 }
